@@ -396,8 +396,28 @@ def expirationOf (q : Qos) (now : Int) : Option Int :=
   | some t => some (now + t)
   | none => none
 
-/-- DcpsDomainParticipant::write_w_timestamp (writer_methods.rs:299-423) for an enabled writer -/
+/-- DataWriterEntity::has_room_for_instance (repair D81): the instance is registered or can be (re-)registered -/
+def roomFor (s : St) (k : Nat) : Bool := isReg s.insts k || ltLen (regCount s.insts) s.qos.maxInstances
+
+/-- KEEP_LAST replacement + entity write, as both call sites do it since the repair of D81 (fixes/D81.patch): a
+    write that DataWriterEntity would refuse for max_instances is refused BEFORE the oldest sample is evicted -/
+def evictWrite (s : St) (k : Nat) (v : Int) (ts now : Int) (sn : Nat) : St × Out :=
+  if !(roomFor s k) then (s, { dgrams := [], reply := some .outOfResources, evicted := [] })
+  else entOut (entWrite (evict s k sn) k v ts now) [sn]
+
+/-- DcpsDomainParticipant::write_w_timestamp (writer_methods.rs) for an enabled writer -/
 def methodWrite (s : St) (k : Nat) (v : Int) (ts now : Int) : St × Out :=
+  match fullFront s k with
+  | some sn =>
+    if s.qos.reliable && !(isAcked s sn) then
+      if s.pending.isSome then (s, { dgrams := [], reply := some .error, evicted := [] })
+      else ({ s with pending := some { key := k, val := v, ts := ts, expiration := expirationOf s.qos now } }, Out.none)
+    else evictWrite s k v ts now sn
+  | none => entOut (entWrite s k v ts now) []
+
+/-- the same call BEFORE the repair of D81: the oldest sample is evicted first, the limits are checked afterwards
+    (regression witness C19_writer_refused_write_evicts_counterexample; not used by the driver) -/
+def methodWriteOld (s : St) (k : Nat) (v : Int) (ts now : Int) : St × Out :=
   match fullFront s k with
   | some sn =>
     if s.qos.reliable && !(isAcked s sn) then
@@ -412,14 +432,15 @@ def canWrite (s : St) (k : Nat) : Bool :=
   | some sn => !s.qos.reliable || isAcked s sn
   | none => true
 
-/-- process_pending_write_samples (writer_methods.rs:599-693) for this writer -/
+/-- process_pending_write_samples (writer_methods.rs) for this writer. (The code tests has_room_for_instance before it
+    looks whether the instance is full; when it is not full the entity write refuses with the same effect.) -/
 def processPending (s : St) (now : Int) : St × Out :=
   match s.pending with
   | none => (s, Out.none)
   | some p =>
     if canWrite s p.key then
       match fullFront s p.key with
-      | some sn => entOut (entWrite (evict { s with pending := none } p.key sn) p.key p.val p.ts now) [sn]
+      | some sn => evictWrite { s with pending := none } p.key p.val p.ts now sn
       | none => entOut (entWrite { s with pending := none } p.key p.val p.ts now) []
     else (s, Out.none)
 
